@@ -276,16 +276,28 @@ Qed.
 Lemma same_core_good s s' : th s' = th s -> issued s' = issued s -> delivered s' = delivered s -> Good s -> Good s'.
 Proof. intros E1 E2 E3 [I P]. split; [intro t; rewrite E1, E2, E3; apply I|intros t e; rewrite E1; apply P]. Qed.
 
-Lemma dispatch_core s e ks : let s' := fst (dispatch s e ks) in
+(* what event processing (dispatch to sinks, backtrace replays) never touches *)
+Definition bcore (s s' : st) : Prop :=
   th s' = th s /\ issued s' = issued s /\ delivered s' = delivered s /\ cache s' = cache s /\ plog s' = plog s /\
-  registered s' = registered s /\ gh s' = gh s /\ invalid_cnt s' = invalid_cnt s /\ flags s' = flags s.
+  registered s' = registered s /\ gh s' = gh s /\ invalid_cnt s' = invalid_cnt s /\ flags s' = flags s /\
+  newflag s' = newflag s /\ clock s' = clock s /\ tsnow s' = tsnow s /\ pc s' = pc s.
+
+Lemma bcore_refl s : bcore s s. Proof. repeat split. Qed.
+Lemma bcore_trans a b c : bcore a b -> bcore b c -> bcore a c.
 Proof.
-  revert s. induction ks as [|k r IH]; intro s; cbn [dispatch]; [repeat split|].
-  destruct (sink_accepts (sk s k) e); [|apply IH].
-  destruct (memb (swrites (sk s k)) (sthrow (sk s k))); cbn [fst]; [cbn; repeat split|].
-  match goal with |- context [dispatch ?s1 e r] => pose proof (IH s1) as H end.
-  cbn in H. cbn. exact H.
+  intros (A1 & A2 & A3 & A4 & A5 & A6 & A7 & A8 & A9 & A10 & A11 & A12 & A13)
+         (B1 & B2 & B3 & B4 & B5 & B6 & B7 & B8 & B9 & B10 & B11 & B12 & B13).
+  repeat split; congruence.
 Qed.
+
+Lemma dispatch_core s e ks : bcore s (fst (dispatch s e ks)).
+Proof.
+  revert s. induction ks as [|k r IH]; intro s; cbn [dispatch]; [apply bcore_refl|].
+  destruct (sink_accepts (sk s k) e); [|apply IH].
+  destruct (memb (swrites (sk s k)) (sthrow (sk s k))); cbn [fst]; [repeat split|].
+  eapply bcore_trans; [|apply IH]. repeat split.
+Qed.
+
 
 Lemma report_failures_good s l : Good s -> Good (report_failures K s l).
 Proof.
@@ -340,51 +352,41 @@ Qed.
 Lemma cleanup_ctx_good s : Good s -> Good (cleanup_ctx K s).
 Proof. intro G. unfold cleanup_ctx. destruct (invalid_cnt s =? 0); [exact G|]. now apply cleanup_loop_good. Qed.
 
-Lemma replay_events_core ks l : forall s, let s' := fst (replay_events K s ks l) in
-  th s' = th s /\ issued s' = issued s /\ delivered s' = delivered s /\ cache s' = cache s /\ plog s' = plog s /\
-  registered s' = registered s /\ gh s' = gh s /\ invalid_cnt s' = invalid_cnt s /\ flags s' = flags s.
+Lemma replay_events_core ks l : forall s, bcore s (fst (replay_events K s ks l)).
 Proof.
-  induction l as [|[e|] r IH]; intro s; cbn [replay_events]; [repeat split| |apply IH].
+  induction l as [|[e|] r IH]; intro s; cbn [replay_events]; [apply bcore_refl| |apply IH].
   pose proof (dispatch_core s e ks) as H.
   destruct (dispatch s e ks) as [s1 threw]. cbn [fst] in H.
-  destruct H as (A & B & Cc & D & F & G & H1 & H2 & H3).
   destruct threw; [destruct (c_bt_catch K)|].
-  - pose proof (IH (add_obs s1 [O_NOTE; 5; 0])) as H'. cbn in H'. destruct H' as (A' & B' & C' & D' & F' & G' & I1 & I2 & I3).
-    cbn. repeat split; congruence.
-  - cbn. repeat split; assumption.
-  - pose proof (IH s1) as H'. cbn in H'. destruct H' as (A' & B' & C' & D' & F' & G' & I1 & I2 & I3).
-    repeat split; congruence.
+  - eapply bcore_trans; [exact H|]. eapply bcore_trans; [|apply IH]. repeat split.
+  - cbn. exact H.
+  - eapply bcore_trans; [exact H|apply IH].
 Qed.
 
-Lemma replay_bt_core s l : let s' := fst (replay_bt K s l) in
-  th s' = th s /\ issued s' = issued s /\ delivered s' = delivered s /\ cache s' = cache s /\ plog s' = plog s /\
-  registered s' = registered s /\ gh s' = gh s /\ invalid_cnt s' = invalid_cnt s /\ flags s' = flags s.
+Lemma replay_bt_core s l : bcore s (fst (replay_bt K s l)).
 Proof.
-  unfold replay_bt. destruct (lbt (lg s l)) as [b|]; [|cbn; repeat split].
+  unfold replay_bt. destruct (lbt (lg s l)) as [b|]; [|apply bcore_refl].
   destruct (process (c_bt K) b) as [b' outs].
   pose proof (replay_events_core (lsinks (lg s l)) outs s) as H.
   destruct (replay_events K s (lsinks (lg s l)) outs) as [s1 threw]. cbn [fst] in *.
-  destruct threw; cbn; exact H.
+  destruct threw; cbn [fst]; [exact H|]. eapply bcore_trans; [exact H|repeat split].
 Qed.
 
-Lemma process_event_core s e : let s' := process_event K s e in
-  th s' = th s /\ issued s' = issued s /\ delivered s' = delivered s /\ cache s' = cache s /\ plog s' = plog s /\
-  registered s' = registered s /\ gh s' = gh s /\ invalid_cnt s' = invalid_cnt s /\ flags s' = flags s.
+Lemma process_event_core s e : bcore s (process_event K s e).
 Proof.
   unfold process_event. destruct (ekind e).
   - destruct (elvl e =? LV_BACKTRACE).
-    + destruct (lbt (lg s (elg e))); cbn; repeat split.
+    + destruct (lbt (lg s (elg e))); repeat split.
     + pose proof (dispatch_core s e (lsinks (lg s (elg e)))) as H.
       destruct (dispatch s e (lsinks (lg s (elg e)))) as [s' threw]. cbn [fst] in H.
-      destruct threw; [cbn; exact H|].
+      destruct threw; [eapply bcore_trans; [exact H|repeat split]|].
       destruct (lbtlvl (lg s' (elg e)) <=? elvl e); [|exact H].
       pose proof (replay_bt_core s' (elg e)) as H2. destruct (replay_bt K s' (elg e)) as [s2 t2]. cbn [fst] in H2.
-      destruct H as (A & B & Cc & D & F & G & H1 & H3 & H4). destruct H2 as (A' & B' & C' & D' & F' & G' & I1 & I2 & I3).
-      destruct t2; cbn; repeat split; congruence.
-  - cbn. repeat split.
-  - cbn. repeat split.
+      destruct t2; [eapply bcore_trans; [exact H|]; eapply bcore_trans; [exact H2|repeat split]|eapply bcore_trans; eauto].
+  - repeat split.
+  - repeat split.
   - pose proof (replay_bt_core s (elg e)) as H2. destruct (replay_bt K s (elg e)) as [s2 t2]. cbn [fst] in H2.
-    destruct t2; cbn; exact H2.
+    destruct t2; [eapply bcore_trans; [exact H2|repeat split]|exact H2].
 Qed.
 
 Lemma min_front_some s l : forall best u e, min_front s l best = Some (u, e) ->
